@@ -66,6 +66,23 @@ def gen(rng, tier):
                 for form in (raw, b"\x04" + raw, b"\x06" + raw, b"\x07" + raw, b"\x02" + x, b"\x03" + x, b"\x05" + raw, b"\x04" + raw[:-1], raw + b"\x00"):
                     yield Case("ptfrombytes", [c, hx(form)], "decode-forms")
                     yield Case("pubkey", [c, hx(form)], "pubkey-forms")
+        # output-dependent: ed25519-family public keys whose raw 32-byte encoding starts (or ends) with a zero byte, in raw and prefixed form
+        if c not in ORD:
+            from harness.props.addr_common import PRIV
+            found = 0
+            for j in range(3000):
+                sk = bytes(rng.randrange(256) for _ in range(64 if c == "ed25519kholaw" else 32))
+                if c == "ed25519monero":
+                    sk = (int.from_bytes(sk, "little") % L or 1).to_bytes(32, "little")
+                comp = PRIV[c].FromBytes(sk).PublicKey().RawCompressed().ToBytes()
+                raw = comp[-32:]
+                if raw[0] == 0 or raw[-1] == 0:
+                    for form in (raw, b"\x00" + raw):
+                        yield Case("pubkey", [c, hx(form)], "pubkey-zero-byte")
+                        yield Case("ptfrombytes", [c, hx(form[-32:])], "decode-zero-byte")
+                    found += 1
+                    if found == (2 if tier == "quick" else 12):
+                        break
         # scalars / keys: validity boundaries
         for v in (0, 1, 2, o - 1, o, o + 1, 2**256 - 1, 2**255, 2**255 + 1, 2**255 + o - 1, 2**255 + o, 8 * o, 2 * o - 1, 2**252, 2**252 - 1, 2**252 + 1, 2**248, 2**253):
             if v >= 2**256:
